@@ -205,9 +205,18 @@ fn test(c: &Case, obs: &mut Obs) -> CaseResult {
                         break;
                     }
                 };
-                if let Err(e) = tx.create_node(first_ext + i, label) {
-                    err = Some(e.to_string());
-                    break;
+                match tx.create_node(first_ext + i, label) {
+                    Ok(n) => {
+                        // many records per commit: a long window between the first appended
+                        // record and the commit record
+                        for k in 0..60 {
+                            let _ = tx.set_node_property(n, format!("w{k}"), nervusdb::PropertyValue::Int(i as i64));
+                        }
+                    }
+                    Err(e) => {
+                        err = Some(e.to_string());
+                        break;
+                    }
                 }
                 match tx.commit() {
                     Ok(()) => acked += 1,
@@ -220,15 +229,24 @@ fn test(c: &Case, obs: &mut Obs) -> CaseResult {
             (acked, err)
         });
         let mut opened = false;
-        for _ in 0..12 {
-            let a = match c.second {
-                Second::SameProcessCApi => try_open_in_thread(base.clone(), true),
-                _ => try_open_in_thread(base.clone(), false),
-            };
-            if a == Attempt::Opened {
-                opened = true;
-                break;
+        // the first attempt goes through the guard (an implementation may block instead of
+        // refusing); if it is refused at once the remaining attempts run in a tight loop
+        let capi = matches!(c.second, Second::SameProcessCApi);
+        let first = try_open_in_thread(base.clone(), capi);
+        if first == Attempt::Opened {
+            opened = true;
+        } else if matches!(first, Attempt::Refused(_)) {
+            let t0 = std::time::Instant::now();
+            let mut attempts = 0u64;
+            while t0.elapsed() < Duration::from_millis(400) {
+                attempts += 1;
+                let ok = if capi { crate::capi_util::CDb::open(&base).map(|d| { let _ = d.close(); }).is_ok() } else { Db::open(&base).is_ok() };
+                if ok {
+                    opened = true;
+                    break;
+                }
             }
+            obs.count("refused_open_attempts", attempts);
         }
         stop.store(true, std::sync::atomic::Ordering::SeqCst);
         let (acked, werr) = writer.join().map_err(|_| Failure::new("harness-writer-panicked", "writer thread panicked"))?;
@@ -243,8 +261,11 @@ fn test(c: &Case, obs: &mut Obs) -> CaseResult {
         let db = std::sync::Arc::try_unwrap(db).map_err(|_| Failure::new("harness", "db still shared"))?;
         drop(db);
         let mut m = r.model.clone();
-        for _ in 0..acked {
-            m.create_node(&["A".to_string()]);
+        for i in 0..acked {
+            let id = m.create_node(&["A".to_string()]);
+            for k in 0..60 {
+                m.nodes.get_mut(&id).unwrap().props.insert(format!("w{k}"), crate::pv::PV::Int(i as i64));
+            }
         }
         r.model = m;
         r.db = Some(hist::open_db(&base).map_err(|f| Failure::new(format!("reopen-after-contended-commits:{}", f.signature), f.message))?);
